@@ -50,6 +50,7 @@ type fakeQueue struct {
 	hasNext  bool
 	requeued []string
 	forgot   []string
+	failures map[string]int // what a rate limiter counts: re-queues since the last Forget
 }
 
 func newFakeQueue() *fakeQueue { return &fakeQueue{pending: map[string]bool{}} }
@@ -81,14 +82,23 @@ func (q *fakeQueue) AddRateLimited(item interface{}) {
 	q.Add(item)
 	q.mu.Lock()
 	q.requeued = append(q.requeued, fmt.Sprint(item))
+	if q.failures == nil {
+		q.failures = map[string]int{}
+	}
+	q.failures[fmt.Sprint(item)]++
 	q.mu.Unlock()
 }
 func (q *fakeQueue) Forget(item interface{}) {
 	q.mu.Lock()
 	q.forgot = append(q.forgot, fmt.Sprint(item))
+	delete(q.failures, fmt.Sprint(item))
 	q.mu.Unlock()
 }
-func (q *fakeQueue) NumRequeues(item interface{}) int { return 0 }
+func (q *fakeQueue) NumRequeues(item interface{}) int {
+	q.mu.Lock()
+	defer q.mu.Unlock()
+	return q.failures[fmt.Sprint(item)]
+}
 func (q *fakeQueue) keys() []string {
 	q.mu.Lock()
 	defer q.mu.Unlock()
